@@ -10,6 +10,8 @@
 //	           about to do) BEFORE writing the payloads / exiting
 //	C15X_PLAN  a write plan "o,N,C;e,N,C;..." replacing C15X_OUT / C15X_ERR: each step writes the next N bytes of
 //	           the stream's pattern (o = stdout, e = stderr; see pat) in separate writes of C bytes
+//	argv       --c15-exit=K --c15-out=HEX --c15-dump=PATH --c15-hold=PATH: the same directives as arguments (they win);
+//	           with --c15-hold the child, after writing its report, waits until that file exists (<= 60 s)
 //	C15X_BG    decimal milliseconds: before exiting, start a detached DESCENDANT (this program
 //	           re-executed with C15X_ROLE=late) that outlives the child, sleeps that long, then
 //	           writes C15X_LATE_OUT (hex) to the inherited stdout and C15X_LATE_ERR (hex) to the
@@ -115,7 +117,22 @@ func main() {
 	sig, _ := strconv.Atoi(os.Getenv("C15X_SIG"))
 	out, _ := hex.DecodeString(os.Getenv("C15X_OUT"))
 	errb, _ := hex.DecodeString(os.Getenv("C15X_ERR"))
-	if p := os.Getenv("C15X_DUMP"); p != "" {
+	// directives given as arguments (--c15-exit=K --c15-out=HEX --c15-dump=PATH --c15-hold=PATH) override the
+	// environment: concurrent calls of one process share its environment, not their argument lists
+	dumpPath, holdPath := os.Getenv("C15X_DUMP"), ""
+	for _, a := range os.Args[1:] {
+		switch {
+		case strings.HasPrefix(a, "--c15-exit="):
+			exit, _ = strconv.Atoi(a[11:])
+		case strings.HasPrefix(a, "--c15-out="):
+			out, _ = hex.DecodeString(a[10:])
+		case strings.HasPrefix(a, "--c15-dump="):
+			dumpPath = a[11:]
+		case strings.HasPrefix(a, "--c15-hold="):
+			holdPath = a[11:]
+		}
+	}
+	if p := dumpPath; p != "" {
 		var r report
 		for _, a := range os.Args {
 			r.Argv = append(r.Argv, hex.EncodeToString([]byte(a)))
@@ -140,6 +157,15 @@ func main() {
 		b, _ := json.Marshal(r)
 		if err := ioutil.WriteFile(p+".tmp", b, 0644); err == nil {
 			os.Rename(p+".tmp", p)
+		}
+	}
+	if holdPath != "" {
+		// reported; now stay in flight until released
+		for i := 0; i < 30000; i++ {
+			if _, err := os.Stat(holdPath); err == nil {
+				break
+			}
+			time.Sleep(2 * time.Millisecond)
 		}
 	}
 	if plan := os.Getenv("C15X_PLAN"); plan != "" {
